@@ -200,7 +200,7 @@ func (ex *Exec) NewState() *PState {
 	n := 0
 	st := &PState{ex: ex, env: map[ssa.Value]Val{}, cells: map[int]Val{}, heaps: map[string]T{}, ncell: &n}
 	st.kv = st.Fresh("kv", SKV)
-	st.trace = st.Fresh("trace", "(Array Int Int)")
+	st.trace = st.Fresh("trace", "(Array Int Ev)")
 	st.traceN = st.Fresh("traceN", SInt)
 	st.Assume(App(SBool, ">=", st.traceN, IntLit(0)))
 	return st
